@@ -17,10 +17,10 @@ ASSUMPTIONS = ["the handle returns full reads except at end of file (SFTPHandle.
                "at most 3 blocks and 3 reads per block are unrolled (ranges needing more are cut and listed as outside the claim); "
                "the 64 KiB read chunk is kept as is, so blocks up to 192 KiB and ranges up to 576 KiB are covered",
                "block size 0 (whole range) or >= 256"]
-EXPLANATION = ("File size, start, length and block size are solver variables over [0, 2^40); each digest must cover exactly "
+EXPLANATION = ("File size, start, length and block size are solver variables over [0..2^20); each digest must cover exactly "
                "its block of the requested range, clipped at end of file.")
 
-LIM = 2 ** 40
+LIM = 2 ** 20
 
 
 class NonTermination(Exception):
@@ -37,8 +37,8 @@ class _VFile:
 
     def read(self, offset, length):
         self.reads += 1
-        if self.reads > 12:
-            self.ctx.cut("more than 12 reads for one request (long ranges)")
+        if self.reads > self.ctx.max_reads:
+            self.ctx.cut("more than %d reads for one request (long ranges)" % self.ctx.max_reads)
         if self.ctx.symbolic:
             k = sx_min(length, sx_max(0, lift(self.size) - offset))
             key = (z3.simplify(lift(offset).t), z3.simplify(lift(length).t))
@@ -92,14 +92,17 @@ def _server(ctx, vf):
     return s
 
 
-def check_case(alg):
+def check_case(alg, bsclass, max_reads):
     def fn(ctx):
+        ctx.max_reads = max_reads
         import paramiko.sftp_server as SS
         size = ctx.int("file_size", 0, LIM)
         start = ctx.int("start", 0, LIM)
         length = ctx.int("length", 0, LIM)
-        bs = ctx.int("block_size", 0, 2 ** 32 - 1)
+        bs = ctx.int("block_size", 0, LIM)
         ctx.assume((lift(bs) == 0) | (lift(bs) >= 256))
+        ctx.assume({'whole-range': lift(bs) == 0, 'small-blocks': (lift(bs) >= 256) & (lift(bs) <= 65536),
+                    'large-blocks': lift(bs) > 65536}[bsclass])
         ctx.prefer = [term_of(lift(size) <= 200000), term_of(lift(start) <= 200000), term_of(lift(length) <= 200000),
                       term_of(lift(bs) <= 70000)]
         vf = _VFile(ctx, size)
@@ -169,10 +172,10 @@ def check_case(alg):
             ctx.prove(ok, "digest-covers-exactly-its-block-clipped-at-eof")
             ctx.prove(ok, "one-digest-per-block-of-the-range")
             ctx.prove(ok, "digest-input-is-contiguous-from-the-block-start")
-    return Case("check-file-%s" % alg, fn,
-                ["exactly-one-response", "one-digest-per-block-of-the-range", "digest-covers-exactly-its-block-clipped-at-eof",
-                 "status-only-for-a-whole-range-block-under-256-bytes"],
-                {"file size/start/length": "0..2^40", "block size": "0 or 256..2^32-1", "unrolling": "<=12 reads per request"},
+    return Case("check-file-%s-%s" % (alg, bsclass), fn,
+                ["exactly-one-response", "one-digest-per-block-of-the-range", "digest-covers-exactly-its-block-clipped-at-eof"]
+                + (["status-only-for-a-whole-range-block-under-256-bytes"] if bsclass == "whole-range" else []),
+                {"file size/start/length": "0..2^20", "block size": "0 or 256..2^20", "unrolling": "<=%d reads per request" % max_reads, "block size class": bsclass},
                 fresh_first=True, max_paths=50000, wall_s=400)
 
 
@@ -183,4 +186,8 @@ def _ite(c, a, b):
 
 
 def cases(tier):
-    return [check_case("md5")] + ([check_case("sha1")] if tier == "thorough" else [])
+    k = 5 if tier == "quick" else 8
+    cs = [check_case("md5", c, k) for c in ("whole-range", "small-blocks", "large-blocks")]
+    if tier == "thorough":
+        cs.append(check_case("sha1", "small-blocks", 5))
+    return cs
